@@ -106,6 +106,68 @@ pub fn prelude(g: Fmt) {
     });
 }
 
+/// run `job` on a thread with a 1 GiB stack (terms nested hundreds of levels deep recurse that deep in
+/// the library, in `Drop` and in the harness's own walks); None if the thread could not run or died
+pub fn on_big_stack<R: Send + 'static>(job: impl FnOnce() -> R + Send + 'static) -> Option<R> {
+    std::thread::Builder::new().stack_size(1 << 30).spawn(job).ok()?.join().ok()
+}
+
+/// a term nested `depth` levels deep along one spine: negations, one-element sets, products,
+/// statements and images in rotation (`variant` shifts the rotation; 0 = negations only)
+pub fn deep_td(depth: usize, variant: usize) -> TD {
+    let mut t = TD::word("core");
+    for i in 0..depth {
+        let k = if variant == 0 { 0 } else { (i + variant) % 7 };
+        t = match k {
+            0 => TD::comp(Kind::Neg, vec![t]),
+            1 => TD::comp(Kind::SetExt, vec![t]),
+            2 => TD::comp(Kind::Product, vec![TD::word("p"), t]),
+            3 => TD::bin(Kind::Inh, t, TD::word("q")),
+            4 => TD::comp(Kind::Conj, vec![t, TD::word("r")]),
+            5 => TD::bin(Kind::Sim, TD::word("s"), t),
+            _ => TD::image(Kind::ImgExt, 1, vec![TD::word("R"), t]),
+        };
+    }
+    t
+}
+
+/// a compound of kind `k` with `n` distinct word components `w0..` (images: placeholder in the middle)
+pub fn wide_td(k: Kind, n: usize) -> TD {
+    let kids: Vec<TD> = (0..n).map(|i| TD::word(&format!("w{}", i))).collect();
+    if k.shape() == Shape::Image {
+        TD::image(k, n / 2, kids)
+    } else {
+        TD::comp(k, kids)
+    }
+}
+
+/// The extreme-size cases shared by the checks: terms nested 129..300 deep and compounds with
+/// 255..1000 components - beyond the random generators' bounds (depth 90, arity 130), inside every
+/// property's "any nesting depth / any number of components".  Labels rebuild the term in a replay.
+pub fn extreme_cases() -> Vec<(String, TD)> {
+    let mut out = vec![];
+    for depth in [129usize, 200, 257, 300] {
+        for variant in [0usize, 1, 3] {
+            out.push((format!("deep:{}:{}", depth, variant), deep_td(depth, variant)));
+        }
+    }
+    for n in [255usize, 256, 257, 300, 1000] {
+        for k in [Kind::SetExt, Kind::SetInt, Kind::Conj, Kind::IntExt, Kind::Product, Kind::ConjSeq, Kind::ImgExt] {
+            out.push((format!("wide:{}:{}", k.tag(), n), wide_td(k, n)));
+        }
+    }
+    out
+}
+
+pub fn extreme_from_label(label: &str) -> Option<TD> {
+    let p: Vec<&str> = label.split(':').collect();
+    match p.as_slice() {
+        ["deep", d, v] => Some(deep_td(d.parse().ok()?, v.parse().ok()?)),
+        ["wide", k, n] => Some(wide_td(ALL_KINDS.iter().copied().find(|x| x.tag() == *k)?, n.parse().ok()?)),
+        _ => None,
+    }
+}
+
 /// run `job` as the first work of a freshly spawned thread, after `prelude(g)` when `g` is given
 pub fn on_fresh_thread<R: Send + 'static>(g: Option<Fmt>, job: impl FnOnce() -> R + Send + 'static) -> Option<R> {
     std::thread::spawn(move || {
